@@ -60,16 +60,39 @@ def pool_of(rs: int, index: int) -> int:
     return h64("pool", rs) % 3
 
 
+def worker_init() -> None:
+    W.preload_snoop_layer()
+
+
 # ------------------------------------------------------------------ generation
 def fd_boundaries(tx_dl: int) -> List[int]:
     a, b = tx_dl - 2, tx_dl - 1
     return [7, 8, a - 1, a, a + 1, a + b - 1, a + b, a + b + 1, a + 2 * b, a + 15 * b, a + 16 * b + 1]
 
 
+UDS_MODE = [False]  # per-trace switch set by gen(): telegrams that look like UDS traffic
+
+
 def gen_payload(rng, n: int, counter: int) -> bytes:
     body = bytearray(rng.getrandbits(8) for _ in range(n))
     # embed a counter so that every report is attributable to one transmission
     tag = bytes([0xA0 | (counter >> 8) & 0xF, counter & 0xFF])
+    if UDS_MODE[0]:
+        # UDS-like head: negative responses (also with rare / unassigned response codes and cut short),
+        # positive responses and requests of the services the snoop tool's example database knows
+        kind = rng.choice(["neg", "neg", "pos", "req"])
+        sid = rng.choice([0x10, 0x22, 0x31, 0x3E, 0xBA, 0xBD])
+        if kind == "neg":
+            head = bytes([0x7F, sid, rng.choice([0x78, 0x78, 0x11, 0x12, 0x31, 0x22, 0x93, 0x34, 0x81, 0xF0, 0xFE, 0x00,
+                                                 rng.getrandbits(8)])])
+        elif kind == "pos":
+            head = bytes([(sid + 0x40) & 0xFF])
+        else:
+            head = bytes([sid])
+        body[:min(n, len(head))] = head[:n]
+        if n >= len(head) + 2:
+            body[len(head):len(head) + 2] = tag
+        return bytes(body)
     body[:min(n, 2)] = tag[2 - min(n, 2):] if n < 2 else tag
     return bytes(body)
 
@@ -155,6 +178,8 @@ ENTRY_POOL = [
     {"ep": "text", "kind": "vpassive", "portions": 5},
     {"ep": "text", "kind": "passive", "mixed": 2},
     {"ep": "text", "kind": "vactive", "mixed": 3},
+    {"ep": "snoop", "kind": "passive"},
+    {"ep": "snoop", "kind": "passive", "nostrict": True},
     {"ep": "bus", "kind": "passive"},
     {"ep": "bus", "kind": "active"},
     {"ep": "bus", "kind": "vactive"},
@@ -222,6 +247,16 @@ def gen_closed(S: Streams, with_faults: bool = False) -> Dict[str, Any]:
 
 
 def gen(rs: int, index: int, tier: str) -> Dict[str, Any]:
+    systematic = index < sys_total() and index % 2 == 0 if tier == "quick" else index < sys_total()
+    UDS_MODE[0] = (not systematic) and Streams(rs).rng("uds").random() < 0.3
+    try:
+        t = gen_(rs, index, tier)
+    finally:
+        UDS_MODE[0] = False
+    return t
+
+
+def gen_(rs: int, index: int, tier: str) -> Dict[str, Any]:
     S = Streams(rs)
     r = S.rng("cfg")
     systematic = index < sys_total() and index % 2 == 0 if tier == "quick" else index < sys_total()
@@ -397,6 +432,11 @@ def run_entry(trace: Dict[str, Any], ent: Dict[str, Any], frames: List[Tuple[int
             head = (frames, len(frames) // int(ent["mixed"]))
         return W.feed_text(text_lines(trace), ent["kind"], mon, tx, pad, portions=int(ent.get("portions", 1)),
                            head_direct=head)
+    if ent["ep"] == "snoop":
+        # the whole tool pipeline (odxtools snoop reading a capture from stdin); it tracks exactly two IDs
+        if len(mon) != 2:
+            return W.feed_text(text_lines(trace), "vpassive", mon, tx, pad)
+        return W.feed_snoop(text_lines(trace), mon, strict=not ent.get("nostrict"))
     if ent["ep"] == "bus":
         return W.feed_bus(frames, ent["kind"], mon, tx, clock, pad)
     raise ValueError(ent)
